@@ -31,7 +31,12 @@ func genC12(t *rapid.T) TCase {
 			c.Ops = append(c.Ops, TOp{K: "cancel", F: rapid.IntRange(0, 63).Draw(t, "f"), N: rapid.SampledFrom([]int{1, 1, 1, 2, 3}).Draw(t, "times"),
 				G: rapid.SampledFrom([]int{0, 0, 1}).Draw(t, "g"), Head: rapid.IntRange(0, 4).Draw(t, "head") == 0})
 		case 8:
-			c.Ops = append(c.Ops, TOp{K: "sleep", D: rapid.SampledFrom([]int{1, 1, 2, 5, 10, 20}).Draw(t, "ms")})
+			if rapid.Bool().Draw(t, "farInsteadOfSleep") {
+				c.Ops = append(c.Ops, TOp{K: "far", D: rapid.IntRange(60, 3600).Draw(t, "far"), N: rapid.IntRange(0, 3).Draw(t, "farKind")})
+				made++
+			} else {
+				c.Ops = append(c.Ops, TOp{K: "sleep", D: rapid.SampledFrom([]int{1, 1, 2, 5, 10, 20}).Draw(t, "ms")})
+			}
 		case 9:
 			k := rapid.IntRange(2, 8).Draw(t, "tie")
 			c.Ops = append(c.Ops, TOp{K: "burst", N: k, D: rapid.SampledFrom(delays).Draw(t, "delay")})
@@ -44,13 +49,13 @@ func genC12(t *rapid.T) TCase {
 // C13 generator: arrival patterns over far / near / burst / cancel-head / idle gap, concurrent callers.
 func genC13(t *rapid.T) TCase {
 	c := TCase{MaxWorkers: rapid.SampledFrom([]int{1, 2, 3, 5, 10, 10}).Draw(t, "maxWorkers")}
-	c.IdleMs = rapid.SampledFrom([]int{5, 20, 50}).Draw(t, "idle")
+	c.IdleMs = rapid.SampledFrom([]int{5, 20, 50, 50, 30000}).Draw(t, "idle") // 30000 = the package default: lateness must not hide behind the idle tick
 	c.Warm = rapid.Bool().Draw(t, "warm")
 	n := rapid.IntRange(1, 12).Draw(t, "steps")
 	for i := 0; i < n; i++ {
 		switch rapid.IntRange(0, 9).Draw(t, "what") {
 		case 0, 1:
-			c.Ops = append(c.Ops, TOp{K: "far", D: rapid.IntRange(60, 600).Draw(t, "far")})
+			c.Ops = append(c.Ops, TOp{K: "far", D: rapid.IntRange(60, 600).Draw(t, "far"), N: rapid.SampledFrom([]int{0, 0, 0, 1, 2, 3}).Draw(t, "farKind")})
 		case 2, 3, 4:
 			c.Ops = append(c.Ops, TOp{K: "call", D: rapid.IntRange(1, 30).Draw(t, "near"), G: rapid.SampledFrom([]int{0, 0, 1, 2}).Draw(t, "g")})
 		case 5, 6:
@@ -58,7 +63,11 @@ func genC13(t *rapid.T) TCase {
 		case 7:
 			c.Ops = append(c.Ops, TOp{K: "cancel", Head: true, N: 1})
 		case 8:
-			c.Ops = append(c.Ops, TOp{K: "gap"})
+			if c.IdleMs > 1000 {
+				c.Ops = append(c.Ops, TOp{K: "sleep", D: 30})
+			} else {
+				c.Ops = append(c.Ops, TOp{K: "gap"})
+			}
 		case 9:
 			c.Ops = append(c.Ops, TOp{K: "sleep", D: rapid.SampledFrom([]int{1, 3, 10, 40}).Draw(t, "ms")})
 		}
@@ -138,12 +147,12 @@ func TestC13Patterns(t *testing.T) {
 	names := []string{"far", "near", "burst", "cancelhead", "gap", "concurrent"}
 	shard, shards := vstat.Shard()
 	i := 0
-	for _, idle := range []int{5, 20, 50} {
+	for _, idle := range []int{5, 20, 50, 30000} {
 		for _, mw := range vstat.Pick([]int{1, 10}, []int{1, 2, 5, 10}) {
 			for _, a := range names {
 				for _, b := range names {
 					i++
-					if i%shards != shard {
+					if i%shards != shard || (idle > 1000 && (a == "gap" || b == "gap")) {
 						continue
 					}
 					c := TCase{IdleMs: idle, MaxWorkers: mw}
@@ -189,6 +198,25 @@ func TestC13ExitRace(t *testing.T) {
 		t.Skip("timeout hooks unavailable")
 	}
 	st := vstat.For("C13")
+	for i := 0; i < vstat.Pick(40, 300); i++ {
+		v := RunPokeSqueeze()
+		if v != nil && timeBound[v.Sig] {
+			if v2 := RunPokeSqueeze(); v2 == nil { // a lost poke is a matter of nanoseconds: confirm it on 20 further tries
+				lost := 0
+				for k := 0; k < 20; k++ {
+					if RunPokeSqueeze() != nil {
+						lost++
+					}
+				}
+				if lost == 0 {
+					st.Inconclusivef("%s once in the poke squeeze, not reproduced in 21 re-runs", v.Sig)
+					v = nil
+				}
+			}
+		}
+		st.Report(t, "TestC13ExitRace", map[string]any{"poke_squeeze": true}, v)
+		st.Case(true, 0x90ce, func() any { return map[string]any{"poke_squeeze": true} }, "poke_squeeze")
+	}
 	for i := 0; i < vstat.Pick(30, 150); i++ {
 		idle := time.Duration(40+i%3*20) * time.Millisecond
 		v := RunExitSqueeze(idle)
